@@ -43,7 +43,9 @@ import (
 	"fmt"
 	"os"
 	"path/filepath"
+	"runtime"
 	"sort"
+	"strings"
 	"sync"
 	"sync/atomic"
 	"testing"
@@ -215,6 +217,9 @@ type vrWorld struct {
 	waiters map[wire.OutPoint][]chan *chainntnfs.SpendDetail
 	epochs  []chan *chainntnfs.BlockEpoch
 	gateOK  bool
+	gateCh  chan struct{} // closed when the gate opens
+	bcastCh chan struct{} // closed when MarkCommitmentBroadcasted is durable
+	bcastMu sync.Once
 
 	commitHash chainhash.Hash
 	closeTx    *wire.MsgTx
@@ -483,17 +488,9 @@ func (s *vrSweeper) SweepInput(inp input.Input, _ sweep.Params) (chan sweep.Resu
 	} else {
 		// confirmed later, when the gate opens
 		go func() {
-			for i := 0; i < 4000; i++ {
-				time.Sleep(500 * time.Microsecond)
-				w.mu.Lock()
-				ok := w.gateOK
-				w.mu.Unlock()
-				if ok {
-					ch <- sweep.Result{Tx: &wire.MsgTx{
-						TxIn: []*wire.TxIn{{PreviousOutPoint: op}}}}
-					return
-				}
-			}
+			<-w.gateCh
+			ch <- sweep.Result{Tx: &wire.MsgTx{
+				TxIn: []*wire.TxIn{{PreviousOutPoint: op}}}}
 		}()
 	}
 	return ch, nil
@@ -876,7 +873,11 @@ func (w *vrWorld) boot(ev vrEvent) *vrInc {
 		// newActiveChannelArbitrator
 		arbCfg.Channel = &vrChannel{w: w}
 		arbCfg.MarkCommitmentBroadcasted = func(*wire.MsgTx, lntypes.ChannelParty) error {
-			return w.chanPut("bcast", []byte{1})
+			err := w.chanPut("bcast", []byte{1})
+			if err == nil {
+				w.bcastMu.Do(func() { close(w.bcastCh) })
+			}
+			return err
 		}
 		arbCfg.MarkChannelClosed = func(s *channeldb.ChannelCloseSummary,
 			_ ...channeldb.ChannelStatus) error {
@@ -934,7 +935,11 @@ func (w *vrWorld) run() {
 	c := w.c
 	ev := w.build()
 	sched := append([]int{}, c.Crashes...)
-	idle := time.Duration(vEnvInt("VERIF_C13_IDLE_MS", 120)) * time.Millisecond
+	// quiescence: no transaction / output / sweep request for `idle` AND every
+	// other goroutine of the process blocked on a channel (checked twice);
+	// maxWait is only a fallback.
+	idle := time.Duration(vEnvInt("VERIF_C13_IDLE_MS", 40)) * time.Millisecond
+	maxWait := time.Duration(vEnvInt("VERIF_C13_MAXWAIT_MS", 20000)) * time.Millisecond
 	for {
 		c.Incs++
 		if w.chanGet("full") != nil {
@@ -986,11 +991,11 @@ func (w *vrWorld) run() {
 				}
 				// our commitment confirms only once it has been
 				// broadcast
-				for w.chanGet("bcast") == nil {
+				if w.chanGet("bcast") == nil {
 					select {
+					case <-w.bcastCh:
 					case <-quitEnv:
 						return
-					case <-time.After(200 * time.Microsecond):
 					}
 				}
 			}
@@ -1016,11 +1021,17 @@ func (w *vrWorld) run() {
 			if !gate && (c.Spec.Eager || w.diskState() >= 4) {
 				w.mu.Lock()
 				w.gateOK = true
+				close(w.gateCh)
 				w.mu.Unlock()
 				w.db.touch()
 			}
 			w.pump()
-			if time.Since(time.Unix(0, w.db.lastAct.Load())) > idle {
+			since := time.Since(time.Unix(0, w.db.lastAct.Load()))
+			if since > idle && (since > maxWait || (vrAllBlocked() && func() bool {
+				time.Sleep(5 * time.Millisecond)
+				return vrAllBlocked() &&
+					time.Since(time.Unix(0, w.db.lastAct.Load())) > idle
+			}())) {
 				outcome = "idle"
 				continue
 			}
@@ -1080,6 +1091,38 @@ func (w *vrWorld) run() {
 	w.mu.Unlock()
 }
 
+// vrAllBlocked reports whether every goroutine except the caller is parked
+// on a channel / select / mutex, i.e. nothing in the process can make
+// progress without an external event.
+func vrAllBlocked() bool {
+	buf := make([]byte, 4<<20)
+	n := runtime.Stack(buf, true)
+	recs := strings.Split(string(buf[:n]), "\n\n")
+	for i, r := range recs {
+		if i == 0 {
+			continue // the caller
+		}
+		a := strings.IndexByte(r, '[')
+		b := strings.IndexByte(r, ']')
+		if a < 0 || b < a {
+			continue
+		}
+		st := r[a+1 : b]
+		if k := strings.IndexByte(st, ','); k >= 0 {
+			st = st[:k]
+		}
+		switch st {
+		case "chan receive", "chan send", "select", "semacquire", "sync.Cond.Wait",
+			"sync.Mutex.Lock", "sync.RWMutex.RLock", "sync.RWMutex.Lock",
+			"chan receive (nil chan)", "chan send (nil chan)", "select (no cases)",
+			"sync.WaitGroup.Wait", "IO wait", "finalizer wait":
+		default:
+			return false
+		}
+	}
+	return true
+}
+
 func vrRunCase(t *testing.T, dir string, c *vrCase) {
 	path := filepath.Join(dir, fmt.Sprintf("c13_%d.db", c.ID))
 	inner, err := kvdb.Create(kvdb.BoltBackendName, path, true, kvdb.DefaultDBTimeout, false)
@@ -1097,6 +1140,8 @@ func vrRunCase(t *testing.T, dir string, c *vrCase) {
 		spent:   map[wire.OutPoint]*chainntnfs.SpendDetail{},
 		onSweep: map[wire.OutPoint]*chainntnfs.SpendDetail{},
 		waiters: map[wire.OutPoint][]chan *chainntnfs.SpendDetail{},
+		gateCh:  make(chan struct{}),
+		bcastCh: make(chan struct{}),
 	}
 	binary.BigEndian.PutUint64(w.cp.Hash[:8], uint64(c.ID)+1)
 	w.cp.Hash[31] = 0x13
